@@ -183,11 +183,22 @@ func (cr *concRun) doRead(hs *store.HStore, cl int, key string) {
 		case strings.Contains(msg, "no such file"):
 			e.errc = "nofile"
 		case strings.Contains(msg, "bad key size"), strings.Contains(msg, "bad value size"), strings.Contains(msg, "crc"),
-			strings.Contains(msg, "EOF"), strings.Contains(msg, "fail to read"):
+			strings.Contains(msg, "EOF"), strings.Contains(msg, "fail to read"), strings.Contains(msg, "fail to  read"):
 			e.errc = "decode"
+		case strings.Contains(msg, "bad htree item want"):
+			e.errc = "foreign" // another key's record lies at the position (and the hints do not know the wanted key)
 		default:
 			e.errc = "other"
 		}
+		if len(msg) > 120 {
+			msg = msg[:120]
+		}
+		e.errc += " errmsg=" + strings.Map(func(r rune) rune {
+			if r == ' ' || r == '\n' || r == '=' {
+				return '_'
+			}
+			return r
+		}, msg)
 	case payload == nil:
 	default:
 		e.ver = payload.Ver
